@@ -137,7 +137,8 @@ static void fill_event(Poly *P, int maxcand) {
     fputs("]}\n", vt_out); n_ev++;
     /* capacity below the result: E_MEMORY_BOUNDS without overrun (C15) */
     for (int m = 0; m < 4; m++) if (!rc[m + 1] && cnt[m + 1] > 0) {
-        int64_t caps[3] = {cnt[m + 1] - 1, 0, cnt[m + 1]}; int ncap = cnt[m + 1] > 1 ? 3 : 2; if (cnt[m + 1] == 1) { caps[1] = 1; }
+        int64_t caps[5] = {cnt[m + 1] - 1, 0, cnt[m + 1], 0, 0}; int ncap = cnt[m + 1] > 1 ? 3 : 2; if (cnt[m + 1] == 1) { caps[1] = 1; }
+        if (cnt[m + 1] > 3) { caps[3] = 1 + (int64_t)vt_randn((uint64_t)cnt[m + 1] - 2); caps[4] = 1 + (int64_t)vt_randn((uint64_t)cnt[m + 1] - 2); ncap = 5; }   /* run out in the middle */
         for (int c = 0; c < ncap; c++) { int64_t cap = caps[c]; if (cnt[m + 1] == 1 && c == 0) cap = 0; H3Index *o2 = gb_alloc(cap, 8, 0); H3Error r2 = polygonToCellsExperimental(g, res, m, cap, o2); int64_t w = 0; for (int64_t i = 0; i < cap; i++) if (o2[i]) w++;
             fprintf(vt_out, "{\"e\":\"polycap\",\"mode\":%d,\"count\":", m); vt_big(cnt[m + 1]); fputs(",\"cap\":", vt_out); vt_big(cap); fprintf(vt_out, ",\"rc\":%u,\"g\":%d,\"w\":", r2, gb_ok(o2)); vt_big(w); fputs("}\n", vt_out); gb_free(o2); }
     }
@@ -175,6 +176,24 @@ static int bbox_main(int quick, const char *path) {
     vt_close(); return 0;
 }
 
+/* A small polygon inside the descendant of a coarse cell that lies farthest from the coarse cell's centre: the hierarchical fill
+ * reaches it only if the child-covering bounding boxes of all its ancestors cover it (the Covering guarantee of H3PolyIter). */
+static int gen_corner_poly(Poly *P, int ares, int tres, int mode) {
+    memset(P, 0, sizeof *P); H3Index c = 0;
+    if (mode == 0) { int f = (int)vt_randn(20); LatLng fc = {VERIF_FACE_CENTER[f][0] + 0.02 * (vt_rand01() - 0.5), VERIF_FACE_CENTER[f][1] + 0.02 * (vt_rand01() - 0.5)}; latLngToCell(&fc, ares, &c); }   /* the largest cells of a resolution sit at the face centres */
+    else if (mode == 1) { H3Index p[12]; getPentagons(ares, p); H3Index d[7] = {0}; gridDisk(p[vt_randn(12)], 1, d); c = d[vt_randn(7)]; if (!c) c = d[0]; }            /* the smallest round the icosahedron vertices */
+    else c = vt_random_cell(ares);
+    if (!c) return 1;
+    LatLng cc; if (cellToLatLng(c, &cc) || fabs(cc.lat) > 1.3) return 1;
+    /* walk down: at each level take the child farthest from the coarse centre (ties broken at random by a small jitter) */
+    H3Index cur = c; V3 c3 = v3_of(&cc);
+    for (int r = ares + 1; r <= tres; r++) { H3Index ch[7] = {0}; if (cellToChildren(cur, r, ch)) return 1; double best = -1; H3Index bi = 0;
+        for (int i = 0; i < 7; i++) if (ch[i]) { LatLng g; cellToLatLng(ch[i], &g); double a = v3_angle(c3, v3_of(&g)) * (1 + 0.05 * vt_rand01()); if (a > best) { best = a; bi = ch[i]; } } cur = bi; }
+    LatLng dc; cellToLatLng(cur, &dc); double e = edge_rads(tres);
+    int n = 3 + (int)vt_randn(3); if (make_loop(P->outer, n, dc.lat, dc.lng, e * (0.15 + 0.25 * vt_rand01()), 0.7, 1, vt_rand01() * 6.28, (int)vt_randn(2))) return 1;
+    P->g.geoloop.numVerts = n; P->g.geoloop.verts = P->outer; P->g.numHoles = 0; P->g.holes = P->holes; P->kind = "corner-descendant"; P->res = tres; return 0;
+}
+
 int main(int argc, char **argv) {
     if (argc >= 5 && !strcmp(argv[1], "bbox")) { vt_seed(strtoull(argv[3], 0, 10) + 77); return bbox_main(argv[2][0] == 'q', argv[4]); }
     if (argc < 5 || strcmp(argv[1], "run")) return 2;
@@ -182,6 +201,7 @@ int main(int argc, char **argv) {
     getPentagons(0, PENT0);
     int npoly = quick ? 260 : 4000; int maxcand = quick ? 1500 : 6000;
     for (int i = 0; i < npoly; i++) { Poly P; if (gen_poly(&P, i, quick)) continue; fill_event(&P, maxcand); }
+    for (int ares = 0; ares <= 14; ares++) for (int tres = ares + 1; tres <= 15 && tres <= ares + 5; tres++) for (int k = 0; k < (quick ? 3 : 15); k++) { Poly P; if (gen_corner_poly(&P, ares, tres, k % 3)) continue; fill_event(&P, maxcand); }
     fprintf(stderr, "events=%ld candidates=%ld ambiguous-centres=%ld\n", n_ev, n_cand, n_amb);
     vt_close(); return 0;
 }
